@@ -80,7 +80,7 @@ class C15(Check):
             "notifications anywhere in the stream, offline periods (Reopen, chain evolves, real SynchronizeRPC start-up observed "
             "at the end of the rollback transaction and after RescanFinished), one chain longer than MaxReorgDepth per run "
             "(six in the thorough tier); every notification goes through the wallet's own handler (one walletdb.Update each) "
-            "and is followed by an observation. non-trivial = a reorganisation (online or offline) that replaces a block "
+            "and is followed by an observation; corpus/C15 (S1 witness, two mutation witnesses) runs first. non-trivial = a reorganisation (online or offline) that replaces a block "
             "holding a wallet transaction; distinct by input")
     N_QUICK = 260
     N_THOROUGH = 3000
